@@ -159,6 +159,9 @@ func Note(msg string)  {}
 func Stub(name string, fn any) {}
 func Unstub(name string)       {}
 
+// Thorough reports whether the thorough tier is running (GOSX_TIER=thorough).
+func Thorough() bool { return os.Getenv("GOSX_TIER") == "thorough" }
+
 // Symbolic reports whether the code runs under the engine.
 func Symbolic() bool { return false }
 
